@@ -22,8 +22,12 @@ CLAIMED = {
          "As C05, including b empty, b holding the zero-length prefix, b's root below or beside a's root."),
  "C08": ("model_checking", "TLC over pairs of maps: inherited-LPM bookkeeping of union/difference vs declarative LPM in the other view's entries; rows replayed on the code",
          "As C05; the annotation fields of every one-sided item are compared."),
+ "C17": ("exploration", "TLC as evaluator: logged evaluations of the real Prefix operations (all 14 types) validated against Bits.tla; the laws of Bits.tla model-checked for all widths <= 3/4",
+         "Pure-function property: exhaustive for the 8-bit tuple type's values (unary operations, is_bit_set for all 256 indices), boundary-biased values x all lengths for the wider types; every logged line is decided by TLC, all 5.3 million ordered pairs of the 8-bit universe additionally by an in-process oracle."),
  "C18": ("model_checking", "TLC with host-token variants on every argument: abstract map keyed by network bits, stored representation = last inserting call; all returned prefixes compared with host bits on the code",
          "Every key is passed with several host-bit patterns; returned prefixes of lookups, iterators, views, entries and set operations are compared including host bits on all types that retain them."),
+ "C20": ("model_checking", "TLC: every action total and panic-free on every state/argument, explicit PANIC outcomes at unwrap sites, fault actions (callback panics at every index); rows replayed under catch_unwind + watchdog in debug and release builds at boundary lengths of all 14 types",
+         "No-panic / termination is checked on every replayed transition (boundary universe width-2..width for every type, debug and release profile); injected callback panics at every invocation index with the post-state compared; the one listed finding (OccupiedEntry used after remove) is explained by a named deviation of the specification."),
  "C19": ("model_checking", "TLC over pairs of maps: PartialEq algorithm vs equality of sorted entry sequences; ==, != in both directions replayed on the code",
          "Pairs of reachable states incl. strict-prefix pairs, empty map, equal contents with different shapes."),
  "C09": ("model_checking", "TLC: cover/spm walks = declarative covering entries by length; rows replayed on the code",
@@ -44,7 +48,7 @@ CLAIMED = {
 NOTE = "Trusted: TLC + CommunityModules; the harness projection (own bit conversions, public view walk, read-only hook); bounded universe (2-bit keys, see DESIGN.md section 9)."
 
 checks = []
-for pid, (lvl, tech, text) in CLAIMED.items():
+for pid, (lvl, tech, text) in sorted(CLAIMED.items()):
     checks.append(dict(property_id=pid, quick_cmd=f"./check {pid} quick", thorough_cmd=f"./check {pid} thorough",
                        evidence_file=f"/verif/evidence/{pid}.json", replay_cmd_template="./check --replay {path}",
                        engine="tlc+harness",
